@@ -29,6 +29,9 @@ def run(ctx) -> None:
     r4_utf16(ctx)
     r5_wildcards_rejected(ctx)
     r6_wildcard_width(ctx)
+    # the payload is the parsed Sigma value: only `re` takes the raw text of a value literally (shared with C03.R10)
+    from . import c03
+    c03.r10_re_needs_text(ctx, "C04.R7")
 
 
 def _extract(ctx) -> dict[str, Any]:
@@ -315,6 +318,9 @@ def r4_utf16(ctx) -> None:
                 codecs.append(str(const_eval(prog, f.module, c.args[0])).lower().replace("_", "-"))
             except (ValueError, IndexError):
                 codecs.append("?")
+        lenient = [c for c in encs if len(c.args) > 1 or c.keywords]
+        if lenient:
+            r.violation("C04.R4", f.qual, short(lenient[0], 80), "the encode step is given an error handler: code points without an encoding (lone surrogates) are let through instead of refused — with the UTF-8 re-decoding trick D8..DF 80..BF is even valid, so `'\\udc80'` comes out as another character", loc)
         if codecs == [codec]:
             r.ok("C04.R4", f.qual, f"encodes with {codec}", loc)
         else:
